@@ -52,6 +52,9 @@ class SynthesisDecider(ABC):
     @abc.abstractmethod
     def choose_options(self, alternatives: list[T], ctx: LocalSynthesisContext) -> T: ...
 
+    def start_tree(self) -> None:
+        """Called when the synthesis of a new tree starts: deciders with per-tree state reset it here."""
+
 
 class BaseDecider(SynthesisDecider):
     def __init__(self, random: RandomSource, grammar: Grammar):
@@ -149,6 +152,10 @@ class PositionIndependentGrowDecider(MaxDepthDecider):
 
     expanding: bool = True  # also when the first decision is not at the root (concrete start symbol)
 
+    def start_tree(self) -> None:
+        # every tree has an expanding phase of its own, also when its first decision is not taken at the root
+        self.expanding = True
+
     def choose_production_alternatives(self, ty: type, alternatives: list[type], ctx: LocalSynthesisContext) -> type:
         assert len(alternatives) > 0, "No alternatives presented"
 
@@ -241,6 +248,8 @@ def create_node(
     initial_vals: dict[str, TreeNode] = initial_values if initial_values is not None else {}
 
     decider = global_context.decider
+    if context.depth == 0 and context.expansions == 0 and context.nodes == 0:
+        decider.start_tree()
 
     if starting_symbol is int:
         return decider.random_int()
